@@ -23,10 +23,11 @@ VOID = {"meta", "link", "br", "img", "input", "hr", "wbr", "area", "base", "col"
 
 
 class El:
-    __slots__ = ("tag", "attrs", "children", "parent", "text")
+    __slots__ = ("tag", "attrs", "children", "parent", "text", "content")
 
     def __init__(self, tag, attrs, parent):
         self.tag, self.attrs, self.parent, self.children, self.text = tag, attrs, parent, [], []
+        self.content = []      # text chunks and child elements in document order
 
     def cls(self):
         return (self.attrs.get("class") or "").split()
@@ -43,10 +44,7 @@ class El:
         return None
 
     def alltext(self):
-        out = list(self.text)
-        for c in self.children:
-            out.append(c.alltext())
-        return "".join(out)
+        return "".join(c if isinstance(c, str) else c.alltext() for c in self.content)
 
     def ancestors(self):
         p = self.parent
@@ -64,12 +62,14 @@ class _Tree(HTMLParser):
     def handle_starttag(self, tag, attrs):
         e = El(tag, {k: (v if v is not None else "") for k, v in attrs}, self.cur)
         self.cur.children.append(e)
+        self.cur.content.append(e)
         if tag not in VOID:
             self.cur = e
 
     def handle_startendtag(self, tag, attrs):
         e = El(tag, {k: (v if v is not None else "") for k, v in attrs}, self.cur)
         self.cur.children.append(e)
+        self.cur.content.append(e)
 
     def handle_endtag(self, tag):
         n = self.cur
@@ -80,6 +80,7 @@ class _Tree(HTMLParser):
 
     def handle_data(self, data):
         self.cur.text.append(data)
+        self.cur.content.append(data)
 
 
 def parse_html(text):
